@@ -658,8 +658,14 @@ def patches_from_ed_script(
         (first_, last_, cmd) = match.groups()
         first = int(first_)
         last = None if last_ is None else int(last_)
+        if last is not None and last < first:
+            raise ValueError("invalid patch argument: %r" % line)
 
         # using ord() makes this work for str and bytes objects
+        if ord(cmd) != 97 and first < 1:
+            # only "a" can address the (non-existent) line 0
+            raise ValueError("invalid patch argument: %r" % line)
+
         if ord(cmd) == 100: # cmd == d
             first = first - 1
             if last is None:
@@ -683,6 +689,8 @@ def patches_from_ed_script(
             if c in ('.\n', '.', b'.\n', b'.'):
                 break
             lines.append(c)
+        else:
+            raise ValueError("end of stream in command: %r" % line)
         yield (first, last, lines)
 
 patchesFromEdScript = function_deprecated_by(patches_from_ed_script)
